@@ -44,5 +44,8 @@ def replace (k v : Bytes) : HeaderMap → HeaderMap
     else if keyLt k' k then (k', v') :: replace k v m
     else (k, v) :: (k', v') :: m
 
+/-- `QMultiMap::remove(k)`: every entry with that key -/
+def remove (k : Bytes) (m : HeaderMap) : HeaderMap := m.filter (fun e => !keyEq e.1 k)
+
 end HeaderMap
 end Qhttp
